@@ -172,10 +172,22 @@ Fixpoint unwrap_strong (e : inl) : list inl :=
   | _ => [e]
   end.
 
+(* first rule: bold around the whole content goes (every directly nested level) *)
+Definition unbold_outer (c : list inl) : list inl :=
+  match c with
+  | [INode KStrong _ as e] => unwrap_strong e
+  | _ => c
+  end.
+(* second rule, applied to what the first leaves: italics around the whole content whose own whole content
+   is bold keeps the italics only *)
+Definition unbold_inner (c : list inl) : list inl :=
+  match c with
+  | [INode KEmph [INode KStrong _ as e]] => [INode KEmph (unwrap_strong e)]
+  | _ => c
+  end.
 Definition unbold_leaf (l : leaf) : leaf :=
   match l with
-  | LHeading sx lv [INode KStrong _ as e] => LHeading sx lv (unwrap_strong e)
-  | LHeading sx lv [INode KEmph [INode KStrong cs]] => LHeading sx lv [INode KEmph cs]
+  | LHeading sx lv c => LHeading sx lv (unbold_inner (unbold_outer c))
   | x => x
   end.
 Definition doc_cleanups (bs : list blk) : list blk := map (map_blk unbold_leaf) bs.
